@@ -790,7 +790,7 @@ func (e *Enc) convert(cur *cursor, x *ssa.Convert) {
 		e.setVal(cur, x, v)
 	case from == "Slice" && to == "Str":
 		// string([]byte): contents of the slice as a string
-		e.setVal(cur, x, e.bytesToStr(cur, v))
+		e.setVal(cur, x, e.bytesToStr(cur, v, x.X.Type().Underlying().(*types.Slice).Elem()))
 	case from == "Str" && to == "Slice":
 		e.unsupportedf("[]byte(string) conversion")
 		e.setVal(cur, x, e.fresh("conv", to))
@@ -803,9 +803,10 @@ func (e *Enc) convert(cur *cursor, x *ssa.Convert) {
 }
 
 // bytesToStr models string(b) for b []byte: a fresh string with the same length and bytes.
-func (e *Enc) bytesToStr(cur *cursor, sl string) string {
+func (e *Enc) bytesToStr(cur *cursor, sl string, elem types.Type) string {
 	s := e.fresh("bstr", "Str")
-	arr := e.heapGet(cur.st, "M$uint8", "Int")
+	an, as := e.cellArr(elem)
+	arr := e.heapGet(cur.st, an, as)
 	e.assume(cur.guard, fmt.Sprintf("(= (slen %s) (sl_len %s))", s, sl))
 	e.assume(cur.guard, fmt.Sprintf("(forall ((k Int)) (! (=> (and (<= 0 k) (< k (sl_len %s))) (= (sat %s k) (select %s (selem (sl_base %s) (sl_off %s) k)))) :pattern ((sat %s k))))", sl, s, arr, sl, sl, s))
 	return s
